@@ -87,6 +87,13 @@ class Seq:
             lab = [b + r.choice([" each month", " each month", ""]) for b in base]
         else:
             vals = [r.choice([0.0, 1.0, -2.5, r.uniform(-5, 50)]) for _ in range(3)]
+            kind = r.random()
+            if kind < 0.12:
+                vals = [int(round(v)) for v in vals]  # plain ints
+            elif kind < 0.24:
+                vals = [np.float64(v) for v in vals]  # numpy scalars (what indexing an array yields)
+            elif kind < 0.3:
+                vals = [np.int64(round(v)) for v in vals]
             lab = list(base)
             if r.random() < 0.3:
                 lab = [b + " per month" for b in base]
